@@ -232,6 +232,7 @@ func (s *APIServer) getRichList(ctx context.Context, data json.RawMessage) inter
 	}
 
 	height := s.Node.GetCurrentSync()
+	s.Node.VerifGatePoint("api:height-read")
 	rates, rateHeight, err := s.Node.Pegnet.SelectMostRecentRatesBeforeHeight(nil, s.Node.Pegnet.DB, height+1)
 	averages := s.Node.GetPegNetRateAverages(ctx, rateHeight).(map[fat2.PTicker]uint64)
 	if err != nil {
